@@ -869,7 +869,7 @@ func acceptFeature(m *Model, err error) string {
 
 func runC08(c *eng.Ctx) {
 	cr := &caseRunner{c: c, prop: "C08"}
-	defer func() { RunLateRegistration(c, cr.next); RunBuildTimeScope(c, cr.next); RunVariadic(c, "C08", cr.next); RunZeroSingleResults(c, cr.next) }()
+	defer func() { RunLateRegistration(c, cr.next); RunBuildTimeScope(c, cr.next); RunVariadic(c, "C08", cr.next); RunZeroSingleResults(c, cr.next); RunRefusedThenValid(c, "C08", cr.next) }()
 	exec := func(idx int, s *Spec, m *Model, kind string) {
 		r := NewRun(s, m, nil, nil)
 		r.Build()
